@@ -176,11 +176,25 @@ impl World {
     pub fn declutter_tick(&self, i: usize, timeout_ms: u64) -> bool {
         let idx = self.nodes[i].idx;
         let key = format!("timer_fired_{}", idx);
+        let skey = format!("timer_started_{}", idx);
+        // a tick released earlier (declutter_kick) may still be pending or running: let it finish first,
+        // so that the tick requested now is a complete cycle of its own
+        if !wait_cond(timeout_ms, 1, || with(|k| k.nodes[idx as usize].declutter_kick == 0 && k.ext.get(&skey).copied().unwrap_or(0) == k.ext.get(&key).copied().unwrap_or(0))) {
+            return false;
+        }
         let before = with(|k| {
             k.nodes[idx as usize].declutter_kick += 1;
             k.ext.get(&key).copied().unwrap_or(0)
         });
         wait_cond(timeout_ms, 1, || with(|k| k.ext.get(&key).copied().unwrap_or(0) > before))
+    }
+
+    /// Wait until no declutter tick is pending or running on node i.
+    pub fn wait_declutter_idle(&self, i: usize, timeout_ms: u64) -> bool {
+        let idx = self.nodes[i].idx;
+        let key = format!("timer_fired_{}", idx);
+        let skey = format!("timer_started_{}", idx);
+        wait_cond(timeout_ms, 1, || with(|k| k.nodes[idx as usize].declutter_kick == 0 && k.ext.get(&skey).copied().unwrap_or(0) == k.ext.get(&key).copied().unwrap_or(0)))
     }
 
     /// Fire-and-forget declutter tick.
